@@ -11,17 +11,17 @@
 (*                (what the binary operators downstream rely on)           *)
 (*   Agree        read as a step function the output equals Dense!SigC of  *)
 (*                the whole signal wherever it is defined                  *)
-(*   Covers       once the whole signal is fed the output covers [0, end]  *)
+(*   Covers       once the whole signal is fed the output covers [T0, end] *)
 (* hist records the batches; EmitBeh prints finished behaviours for replay    *)
 (* on the real operator classes.                                           *)
 (***************************************************************************)
 EXTENDS DenseOn, SequencesExt, Json, TLC
-CONSTANTS Kind, A, B, MaxT, MaxN, Vals, Dev, DoPrint
+CONSTANTS Kind, A, B, MaxT, MaxN, Vals, Dev, DoPrint, T0
 VARIABLES sig, pos, st, emitted, err, lastRet, idle, hist
 vars == <<sig, pos, st, emitted, err, lastRet, idle, hist>>
 
 TimeSets == {S \in SUBSET (1..MaxT) : Cardinality(S) <= MaxN - 1}
-SigOf(S, vs) == LET ts == <<0>> \o SetToSortSeq(S, <) IN [i \in 1..Len(ts) |-> <<ts[i], vs[i]>>]
+SigOf(S, vs) == LET ts == <<0>> \o SetToSortSeq(S, <) IN [i \in 1..Len(ts) |-> <<T0 + ts[i], vs[i]>>]     \* first time-stamp T0
 
 Init == /\ \E S \in TimeSets : \E vs \in [1..(Cardinality(S) + 1) -> Vals] : sig = SigOf(S, vs)
         /\ pos = 0 /\ st = InitTimed /\ emitted = <<>> /\ err = FALSE /\ lastRet = <<>> /\ idle = FALSE /\ hist = <<>>
@@ -42,6 +42,6 @@ NoErr == ~err
 Mono == Monotone(emitted)
 BatchStrict == StrictlyIncreasing(lastRet)
 Agree == err \/ AgreesWith(emitted, Kind, A, B, sig)
-Covers == (pos = Len(sig) /\ ~err) => (emitted # <<>> /\ LastT(emitted) = LastT(sig) /\ FirstT(emitted) = 0)
+Covers == (pos = Len(sig) /\ ~err) => (emitted # <<>> /\ LastT(emitted) = LastT(sig) /\ FirstT(emitted) = T0)
 EmitBeh == (DoPrint /\ pos = Len(sig)) => PrintT("BEHAVIOUR " \o ToJson([kind |-> Kind, a |-> A, b |-> B, sig |-> sig, hist |-> hist]))
 =============================================================================
